@@ -73,8 +73,13 @@ fn payload_for(m: &Msg, universe: u32) -> Val {
         }
     }
     if m.long_len > 0 {
-        let c = (b'a' + (m.seed % 26) as u8) as char;
-        atoms.push(Val::Atom(c.to_string().repeat(m.long_len as usize)));
+        // byte length (what the wire counts) versus character count: multi-byte text too
+        let (c, width) = match m.seed % 3 {
+            0 => ((b'a' + (m.seed % 26) as u8) as char, 1),
+            1 => ('é', 2),
+            _ => ('日', 3),
+        };
+        atoms.push(Val::Atom(c.to_string().repeat((m.long_len as usize / width).max(1))));
     }
     if r.chance(1, 8) {
         atoms.push(Val::atom(""));
